@@ -13,7 +13,7 @@ From Sylt Require Import Pres.Frag.
 From Sylt Require Import Pres.SimDefs Pres.SimOps Pres.SimVals.
 From Sylt Require Import Pres.SimExpr Pres.LowerShape Pres.SimSteps Pres.SimExprProofs.
 From Sylt Require Import Pres.LuaLoop.
-From Sylt Require Import Pres.NoExit Pres.NoRet.
+From Sylt Require Import Pres.NoExit.
 From Sylt Require Import Lua.LuaAst Lua.LuaMap Lua.LuaNum Lua.LuaProofs Lua.LuaCore.
 Import ListNotations.
 Local Open Scope N_scope.
@@ -626,6 +626,9 @@ Proof.
                   e' = e /\ exists sL', LoopR E (fmt_label c0) BB sL0 (ROk SigNormal sL') /\ rel sc e s0' E sL' /\
                                          xkeep bound c c' E sL0 sL'
               | SyltSem.RStop o => exists ev sL', LoopR E (fmt_label c0) BB sL0 (RErr ev sL') /\ SyltSem.trace s0' = s_out sL'
+              | SyltSem.RAbrupt (SyltSem.CReturn v) =>
+                  exists sL' lv, LoopR E (fmt_label c0) BB sL0 (ROk (SigReturn [lv]) sL') /\ vrel v lv /\ rel sc e s0' E sL' /\
+                                 xkeep bound c c' E sL0 sL'
               | SyltSem.RAbrupt _ => False
               end).
     { clear Hev Hrel Hint r st'.
@@ -640,16 +643,21 @@ Proof.
                     e' = e /\ exists sL', LoopR E (fmt_label c0) BB sL0 (ROk SigNormal sL') /\ rel sc e s0' E sL' /\
                                            xkeep bound c c' E sL0 sL'
                 | SyltSem.RStop o => exists ev sL', LoopR E (fmt_label c0) BB sL0 (RErr ev sL') /\ SyltSem.trace s0' = s_out sL'
+                | SyltSem.RAbrupt (SyltSem.CReturn v) =>
+                    exists sL' lv, LoopR E (fmt_label c0) BB sL0 (ROk (SigReturn [lv]) sL') /\ vrel v lv /\ rel sc e s0' E sL' /\
+                                   xkeep bound c c' E sL0 sL'
                 | SyltSem.RAbrupt _ => False
                 end).
       { intros s2 E2 sg sL2 Hsg Hx2 Hrel2 Hk2 Hgo2.
         assert (Hstep : forall rr, LoopR E (fmt_label c0) BB sL2 rr -> LoopR E (fmt_label c0) BB sL0 rr).
         { intros rr Hrr. destruct Hsg as [-> | ->]; [eapply LR_normal; eassumption | eapply LR_continue; eassumption]. }
         pose proof (IHm s2 sL2 r0 s0' Hgo2 Hi0 Hrel2) as Hr.
-        destruct r0 as [e'|o|a]; [| | exact Hr].
+        destruct r0 as [e'|o|[| |v]]; [| | exact Hr | exact Hr |].
         - destruct Hr as (-> & sL' & HL & Hr' & Hk'). split; [reflexivity|]. exists sL'.
           split; [apply Hstep; exact HL | split; [exact Hr' | eapply xkeep_trans; eassumption]].
-        - destruct Hr as (ev & sL' & HL & Htr). exists ev, sL'. split; [apply Hstep; exact HL | exact Htr]. }
+        - destruct Hr as (ev & sL' & HL & Htr). exists ev, sL'. split; [apply Hstep; exact HL | exact Htr].
+        - destruct Hr as (sL' & lv & HL & Hv & Hr' & Hk'). exists sL', lv.
+          split; [apply Hstep; exact HL | split; [exact Hv | split; [exact Hr' | eapply xkeep_trans; eassumption]]]. }
       (* a pass that ends the loop, goes on with continue, or fails *)
       assert (Hterm : forall (rr : SyltSem.res senv) s2, exit_post pv sv bound u fl W c0 sc e c c' E sL0 BB rr s2 ->
                 match rr with
@@ -658,9 +666,13 @@ Proof.
                     exists sL', LoopR E (fmt_label c0) BB sL0 (ROk SigNormal sL') /\ rel sc e s2 E sL' /\ xkeep bound c c' E sL0 sL'
                 | SyltSem.RAbrupt SyltSem.CContinue =>
                     exists E' sL', ExecS E BB sL0 (ROk (E', SigGoto (fmt_label c0)) sL') /\ rel sc e s2 E sL' /\ xkeep bound c c' E sL0 sL'
+                | SyltSem.RAbrupt (SyltSem.CReturn v) =>
+                    exists sL' lv, LoopR E (fmt_label c0) BB sL0 (ROk (SigReturn [lv]) sL') /\ vrel v lv /\ rel sc e s2 E sL' /\
+                                   xkeep bound c c' E sL0 sL'
                 | _ => True
                 end).
       { intros rr s2 (rl & Hx & Hok). destruct rr as [x|o|[| |v]]; cbn [exit_ok] in Hok; try exact I.
+        4: { destruct Hok as (E' & sL' & lv & -> & Hv & Hr & Hk). exists sL', lv. split; [eapply LR_return; exact Hx | auto]. }
         - destruct Hok as (ev & sL' & -> & Htr). exists ev, sL'. split; [apply LR_err; exact Hx | exact Htr].
         - destruct Hok as (E' & sL' & -> & Hr & Hk). exists sL'. split; [eapply LR_break; exact Hx | split; assumption].
         - destruct Hok as (E' & sL' & -> & Hr & Hk). exists E', sL'. split; [exact Hx | split; assumption]. }
@@ -696,8 +708,7 @@ Proof.
         destruct (SyltSem.exec_block n e body s1) as [rb s2] eqn:Heb.
         assert (Hintb : interesting rb).
         { destruct rb as [e2|o|[| |v]]; cbn [interesting]; auto.
-          - inversion Hgo; subst. exact Hi0.
-          - inversion Hgo; subst. exact Hi0. }
+          inversion Hgo; subst. exact Hi0. }
         destruct (IHss g k body c0 (c0 + 1) cs c' e s1 rb s2 sc scb l1 E1 stc F1 Heb Hmb Hfb Hub Hctxb Hrelc Hintb)
           as (bb & l2' & Hs2 & Hpost).
         pose proof (Hsame _ _ _ _ Hs1 Hs2) as HeqBB. rewrite app_assoc in HeqBB.
@@ -725,7 +736,8 @@ Proof.
         + (* continue *)
           destruct (Hterm _ _ Hxp) as (E' & sL' & Hx' & Hr' & Hk').
           eapply (Hcont s2 E' (SigGoto (fmt_label c0)) sL'); [right; reflexivity | exact Hx' | exact Hr' | exact Hk' | exact Hgo].
-        + inversion Hgo; subst r0 s0'. destruct Hi0.
+        + (* ret *)
+          inversion Hgo; subst r0 s0'. exact (Hterm _ _ Hxp).
       - (* the condition fails: break *)
         inversion Hgo; subst r0 s0'. split; [reflexivity|].
         destruct (HLb l1) as (bb & l2' & Hs2). pose proof (Hsame _ _ _ _ Hs1 Hs2) as HeqBB. rewrite app_assoc in HeqBB.
@@ -741,7 +753,11 @@ Proof.
             [exact Hok1 | exact Hrel0 | apply sext_refl | apply incl_refl | exact Hxif | lia | lia | lia | lia]. }
         exact (Hterm _ _ Hxp). }
     pose proof (Hiter n st stL r st' Hev Hint Hrel) as Hres. clear Hiter.
-    destruct r as [e'|o|a]; [| |destruct Hres].
+    destruct r as [e'|o|[| |v]]; [| |destruct Hres|destruct Hres|].
+    3: { destruct Hres as (sL' & lv & HL & Hv & Hr' & Hk'). cbn [stmt_post]. exists (ROk (E, SigReturn [lv]) sL'). split.
+         - apply XS_stop; [|intros []]. apply (Exec_while_ok E (fmt_label c0) BB E stL (SigReturn [lv]) sL' eq_refl).
+           apply (LoopR_sound E (fmt_label c0) BB HnlBB). exact HL.
+         - cbn [exit_ok]. exists E, sL', lv. auto. }
     + destruct Hres as (-> & sL' & HL & Hr' & Hk').
       cbn [stmt_post]. exists E, sL', F. split; [|split; [apply sext_refl | apply incl_refl]].
       split.
@@ -762,6 +778,38 @@ Proof.
     eexists _, _. split; [apply (cshape_plain u l (IGoto ctx) c c); [lia | reflexivity | reflexivity | reflexivity]|].
     cbn [stmt_post agen_one fst]. exists (ROk (E, SigGoto (fmt_label ctx)) stL). split; [apply XS_stop; [apply Exec_goto | intros []]|].
     cbn [exit_ok]. exists E, stL. split; [reflexivity | split; [exact Hrel | split; [lia | auto]]].
+  - (* SRet *)
+    destruct value as [value|]; [|discriminate Hfrag]. rewrite frag_stmt_ret in Hfrag. cbn [statement] in Hlow. mon Hlow.
+    destruct (frag_expr pv sv bound fl k sc value) eqn:Hfe; [|discriminate Hfrag]. inversion Hfrag; subst sc'.
+    destruct a as [code_v rv]. cbn [fst snd] in *.
+    apply ucovers_app in Hu as [Huv Hur].
+    assert (Hcrv : 1 <= count_of u rv) by (eapply Hur; [left; reflexivity | left; reflexivity]).
+    assert (Hret : forall l0, cshape u l0 [IReturn rv] (fst (agen_one u l0 (IReturn rv))) l0 c' c')
+      by (intros l0; apply cshape_plain; [lia | reflexivity | reflexivity | reflexivity]).
+    cbn [SyltSem.exec] in Hev. unfold SyltSem.bind at 1 in Hev.
+    destruct (SyltSem.eval n e value st) as [[v_|o|cc] st1] eqn:He1.
+    2,3: (inversion Hev; subst;
+          destruct (IHe g k value ctx c code_v rv c' e st _ st' sc l E stL F He1 Hm Hfe Huv Hctx Hrel Hint) as (b1 & l1 & Hs1 & _ & _ & Hp1);
+          eexists _, _; (split; [eapply cshape_app; [exact Hs1 | apply Hret]|]);
+          cbn [stmt_post eval_post] in *; eapply exit_app; [exact Hp1 | apply N.le_refl]).
+    cbn in Hev. inversion Hev; subst r st'. clear Hev.
+    destruct (IHe g k value ctx c code_v rv c' e st _ st1 sc l E stL F He1 Hm Hfe Huv Hctx Hrel I)
+      as (b1 & l1 & Hs1 & _ & _ & E2 & stL2 & F2 & Hok2 & Hd2). specialize (Hd2 Hcrv).
+    pose proof Hok2 as (Hx2 & Hf2 & Hrel2 & _ & Hk2).
+    eexists _, _. split; [eapply cshape_app; [exact Hs1 | apply Hret]|].
+    destruct (denotes_now _ _ _ _ _ Hd2 (r_wf _ _ _ _ _ _ _ _ _ _ _ Hrel2) (r_linv _ _ _ _ _ _ _ _ _ _ _ Hrel2)) as (lv & Hv & st3 & _ & Hm3 & Hx3).
+    cbn [stmt_post]. exists (ROk (E2, SigReturn [lv]) st3). split.
+    + eapply ExecS_app; [exact Hx2|]. cbn [agen_one fst]. apply XS_stop; [|intros []].
+      eapply Exec_do. apply ExecBlock_of_ExecS; [|repeat constructor | intros []].
+      apply XS_stop; [|intros []]. apply Exec_return. apply EvalList_one. exact Hm3.
+    + cbn [exit_ok]. exists E2, st3, lv. split; [reflexivity|]. split; [exact Hv|].
+      assert (Hn3 : (s_ncell stL2 <= s_ncell st3)%positive) by (destruct Hx3 as (_ & _ & _ & _ & _ & _ & H & _); exact H).
+      pose proof (wr_ncell _ _ _ _ _ _ _ Hf2) as Hn2.
+      split.
+      * eapply (rel_restrict pv sv bound u fl W sc e st e st1 E E2 stL st3); [exact Hrel | eapply rel_cells_ext; eassumption | exact Hk2 | lia].
+      * split; [lia|]. intros t p Hbt Hr Hp.
+        destruct Hx3 as (_ & _ & _ & _ & _ & _ & _ & Hg). rewrite Hg by (pose proof (wf_alloc _ _ (r_wf _ _ _ _ _ _ _ _ _ _ _ Hrel) _ _ Hp); lia).
+        apply (wr_cells _ _ _ _ _ _ _ Hf2 t p Hbt Hr Hp).
   - (* SBlock *)
     rewrite frag_stmt_block in Hfrag. cbn [statement] in Hlow. apply lower_list_ok in Hlow as (cs & Hm & ->).
     destruct (frag_stmts pv sv bound fl k sc statements) as [sc1|] eqn:Hs; [|discriminate Hfrag]. inversion Hfrag; subst sc'.
@@ -942,8 +990,9 @@ Lemma P_fb_succ n : P_eval n -> P_execs n -> P_fb (S n).
 Proof.
   intros IHe IHss g k body ctx c code c' e st r st' sc sc' l E stL F Hev Hlow Hfrag Hu Hctx Hrel Hint.
   (* an abrupt end is outside what the post-condition says *)
-  assert (Hab : (exists cc, r = SyltSem.RAbrupt cc) -> exists b l', cshape u l code b l' c c' /\ fb_post sc e E stL b r st').
-  { intros [cc ->]. destruct (L_fbody g k body ctx c code c' sc sc' l Hlow Hfrag) as (b & l' & Hs). exists b, l'. split; [exact Hs | exact I]. }
+  assert (Hab : r = SyltSem.RAbrupt SyltSem.CBreak \/ r = SyltSem.RAbrupt SyltSem.CContinue ->
+                exists b l', cshape u l code b l' c c' /\ fb_post sc e E stL b r st').
+  { intros [-> | ->]; destruct (L_fbody g k body ctx c code c' sc sc' l Hlow Hfrag) as (b & l' & Hs); exists b, l'; (split; [exact Hs | exact I]). }
   cbn [SyltSem.block_value] in Hev. unfold lower_fbody in Hlow.
   destruct (rev body) as [|last init_rev] eqn:Hrev.
   - (* empty body *)
@@ -978,7 +1027,10 @@ Proof.
       assert (Huall : ucovers u (concat (cs ++ [a0]))) by (rewrite Hcc; apply ucovers_app; split; assumption).
       unfold SyltSem.bind at 1 in Hev'.
       destruct (SyltSem.exec_block n e (rev init_rev ++ [last]) st) as [[e1|o|cc] st1] eqn:He1.
-      3: { inversion Hev'; subst. apply Hab. eexists; reflexivity. }
+      3: { inversion Hev'; subst. destruct cc as [| |v]; [apply Hab; auto | apply Hab; auto |].
+           destruct (IHss g k _ ctx c _ c' e st _ st' sc sc' l E stL F He1 Hmall Hfrag0 Huall Hctx Hrel Hint)
+             as (b1 & l1 & Hs1 & Hpost). rewrite Hcc in Hs1.
+           eexists _, _. split; [exact Hs1|]. cbn [stmt_post] in Hpost. eapply fb_of_exit; exact Hpost. }
       2: { inversion Hev'; subst.
            destruct (IHss g k _ ctx c _ c' e st _ st' sc sc' l E stL F He1 Hmall Hfrag0 Huall Hctx Hrel Hint)
              as (b1 & l1 & Hs1 & Hpost). rewrite Hcc in Hs1.
@@ -1003,7 +1055,11 @@ Proof.
       by (intros l0; apply cshape_plain; [lia | reflexivity | reflexivity | reflexivity]).
     unfold SyltSem.bind at 1 in Hev.
     destruct (SyltSem.exec_block n e (rev init_rev) st) as [[e1|o|cc] st1] eqn:He1.
-    3: { inversion Hev; subst. apply Hab. eexists; reflexivity. }
+    3: { inversion Hev; subst. destruct cc as [| |v]; [apply Hab; auto | apply Hab; auto |].
+         destruct (IHss g k _ ctx c _ c0 e st _ st' sc sc1 l E stL F He1 Hmi Hfi Hui Hctxi Hrel Hint)
+           as (b1 & l1 & Hs1 & Hp1). destruct (Hrest l1) as (b2 & l2 & Hs2 & _).
+         eexists _, _. split; [eapply cshape_app; [exact Hs1|]; eapply cshape_app; [exact Hs2 | apply Hret]|].
+         cbn [stmt_post] in Hp1. eapply fb_of_exit. eapply (exit_app pv sv bound u fl W ctx sc e c c0 c'); [exact Hp1 | lia]. }
     2: { inversion Hev; subst.
          destruct (IHss g k _ ctx c _ c0 e st _ st' sc sc1 l E stL F He1 Hmi Hfi Hui Hctxi Hrel Hint)
            as (b1 & l1 & Hs1 & Hp1). cbn [stmt_post] in Hp1. destruct Hp1 as (rl & Hx1 & (ev & stL1 & -> & Htr)).
@@ -1015,7 +1071,13 @@ Proof.
     pose proof Hok1 as (Hx1 & Hf1 & Hrel1 & _ & Hk1).
     assert (Hctx1 : ctx_ok l1 F1 E1 c0 c') by (eapply ctx_afterS; eassumption).
     destruct (SyltSem.eval n e1 value st1) as [[v_|o|cc] st2] eqn:He2.
-    3: { inversion Hev; subst. apply Hab. eexists; reflexivity. }
+    3: { inversion Hev; subst. destruct cc as [| |v]; [apply Hab; auto | apply Hab; auto |].
+         destruct (IHe g k'' value ctx c0 code_v rv c' e1 st1 _ st' sc1 l1 E1 stL1 F1 He2 Hm Hfe Huv Hctx1 Hrel1 Hint)
+           as (b2 & l2 & Hs2 & _ & _ & Hp2). cbn [eval_post] in Hp2.
+         eexists _, _. split; [eapply cshape_app; [exact Hs1|]; eapply cshape_app; [exact Hs2 | apply Hret]|].
+         eapply fb_of_exit.
+         eapply (exit_pre pv sv bound u fl W ctx sc sc1 e e1 st st1 F F1 c c0 c'); [exact Hok1 | exact Hrel | exact Hse1 | exact Hinc1 | | lia | lia].
+         eapply exit_app; [exact Hp2 | apply N.le_refl]. }
     2: { inversion Hev; subst.
          destruct (IHe g k'' value ctx c0 code_v rv c' e1 st1 _ st' sc1 l1 E1 stL1 F1 He2 Hm Hfe Huv Hctx1 Hrel1 Hint)
            as (b2 & l2 & Hs2 & _ & _ & Hp2). cbn [eval_post] in Hp2. destruct Hp2 as (rl & Hx2 & (ev & stL2 & -> & Htr)).
